@@ -1,8 +1,881 @@
-(* refutations of the pinned upstream behaviour (fixd = false) by evaluation, with the witness networks *)
+(* Proofs about Model/Calc.v (C09: input-features annotation). *)
 From Coq Require Import List Bool Arith Lia.
 Import ListNotations.
 Require Import Plinio.Model.Calc.
 
+(* ================================================================ generic list facts *)
+Lemma nth_firstn_lt {A} : forall (l : list A) i n d, i < n -> nth i (firstn n l) d = nth i l d.
+Proof.
+  induction l as [|a l IH]; intros i n d H.
+  - rewrite firstn_nil. reflexivity.
+  - destruct n; [lia|]. destruct i; simpl; [reflexivity|]. apply IH. lia.
+Qed.
+
+Lemma flat_map_ext_in' {A B} (f g : A -> list B) l :
+  (forall a, In a l -> f a = g a) -> flat_map f l = flat_map g l.
+Proof.
+  induction l as [|a l IH]; intros H; simpl; [reflexivity|].
+  rewrite (H a (or_introl eq_refl)), IH; [reflexivity|]. intros; apply H; right; assumption.
+Qed.
+
+Lemma hd_indep {A} (l : list A) x d1 d2 : In x l -> hd d1 l = hd d2 l.
+Proof. destruct l; simpl; [tauto|reflexivity]. Qed.
+
+(* ================================================================ (0) build *)
+Section Build.
+Context {A : Type} (f : list A -> node -> A).
+
+Lemma build_snoc nt nd : build f (nt ++ [nd]) = build f nt ++ [f (build f nt) nd].
+Proof. unfold build. rewrite fold_left_app. reflexivity. Qed.
+
+Lemma build_length nt : length (build f nt) = length nt.
+Proof.
+  induction nt as [|x nt IH] using rev_ind; [reflexivity|].
+  rewrite build_snoc, !app_length, IH. reflexivity.
+Qed.
+
+Lemma build_app_firstn nt l : firstn (length nt) (build f (nt ++ l)) = build f nt.
+Proof.
+  induction l as [|x l IH] using rev_ind.
+  - rewrite app_nil_r. rewrite <- (build_length nt). apply firstn_all.
+  - rewrite app_assoc, build_snoc, firstn_app, build_length, app_length.
+    replace (length nt - (length nt + length l)) with 0 by lia.
+    simpl. rewrite app_nil_r. exact IH.
+Qed.
+
+Lemma build_prefix nt l i d : i < length nt -> nth i (build f (nt ++ l)) d = nth i (build f nt) d.
+Proof.
+  intro H. rewrite <- (build_app_firstn nt l). symmetry. apply nth_firstn_lt. exact H.
+Qed.
+
+Lemma build_firstn nt i : i <= length nt -> build f (firstn i nt) = firstn i (build f nt).
+Proof.
+  intro H. rewrite <- (firstn_skipn i nt) at 2.
+  rewrite <- (build_app_firstn (firstn i nt) (skipn i nt)).
+  rewrite firstn_length_le by exact H. reflexivity.
+Qed.
+
+Lemma build_firstn_length nt i : i <= length nt -> length (build f (firstn i nt)) = i.
+Proof. intro H. rewrite build_length. apply firstn_length_le. exact H. Qed.
+
+Lemma firstn_build_length nt i : i <= length nt -> length (firstn i (build f nt)) = i.
+Proof. intro H. apply firstn_length_le. rewrite build_length. exact H. Qed.
+
+Lemma nth_build_mid l1 x l2 d : nth (length l1) (build f (l1 ++ x :: l2)) d = f (build f l1) x.
+Proof.
+  replace (l1 ++ x :: l2) with ((l1 ++ [x]) ++ l2) by (rewrite <- app_assoc; reflexivity).
+  rewrite build_prefix by (rewrite app_length; simpl; lia).
+  rewrite build_snoc, app_nth2 by (rewrite build_length; lia).
+  rewrite build_length, Nat.sub_diag. reflexivity.
+Qed.
+
+Lemma nth_build nt i d d0 : i < length nt ->
+  nth i (build f nt) d = f (firstn i (build f nt)) (nth i nt d0).
+Proof.
+  intro H. destruct (nth_split nt d0 H) as (l1 & l2 & E & Hl).
+  remember (nth i nt d0) as x eqn:Ex. clear Ex. subst i nt.
+  rewrite build_app_firstn, nth_build_mid. reflexivity.
+Qed.
+
+Lemma nth_build_firstn nt i d d0 : i < length nt ->
+  nth i (build f nt) d = f (build f (firstn i nt)) (nth i nt d0).
+Proof. intro H. rewrite build_firstn by lia. apply nth_build. exact H. Qed.
+
+End Build.
+
+(* ================================================================ (0) well-formedness per node *)
+Lemma wf_from_nodes : forall l2 l1 d, wf_from (widths l1) l2 = true ->
+  forall i, i < length l2 -> wf_step (widths (l1 ++ firstn i l2)) (nth i l2 d) = true.
+Proof.
+  induction l2 as [|nd r IH]; intros l1 d H i Hi; simpl in Hi; [lia|].
+  simpl in H. apply andb_true_iff in H as [H1 H2].
+  destruct i.
+  - simpl. rewrite app_nil_r. exact H1.
+  - simpl. unfold widths in H2. rewrite <- build_snoc in H2.
+    specialize (IH (l1 ++ [nd]) d H2 i ltac:(lia)). rewrite <- app_assoc in IH. exact IH.
+Qed.
+
+Lemma wf_node_prefix nt i : wf nt = true -> i < length nt ->
+  wf_step (widths (firstn i nt)) (nth i nt (NIn 0)) = true.
+Proof. intros H Hi. exact (wf_from_nodes nt [] (NIn 0) H i Hi). Qed.
+
+Lemma wf_node nt i : wf nt = true -> i < length nt ->
+  wf_step (firstn i (widths nt)) (node_at nt i) = true.
+Proof.
+  intros H Hi. unfold widths. rewrite <- build_firstn by lia. apply wf_node_prefix; assumption.
+Qed.
+
+Lemma wf_srcs nt i : wf nt = true -> i < length nt ->
+  forall j, In j (srcs_of (node_at nt i)) -> j < i.
+Proof.
+  intros H Hi j Hj. pose proof (wf_node nt i H Hi) as W. unfold wf_step in W.
+  apply andb_true_iff in W as [W _]. rewrite forallb_forall in W.
+  apply W in Hj. apply Nat.ltb_lt in Hj. unfold widths in Hj.
+  rewrite firstn_build_length in Hj by lia. exact Hj.
+Qed.
+
+Lemma wf_dw nt i s co sr : wf nt = true -> i < length nt -> node_at nt i = NLayer s co Dw sr ->
+  co = nth s (widths nt) 0.
+Proof.
+  intros H Hi E. pose proof (wf_node nt i H Hi) as W.
+  pose proof (wf_srcs nt i H Hi s) as Hs. rewrite E in W, Hs. unfold wf_step in W.
+  apply andb_true_iff in W as [_ W]. apply Nat.eqb_eq in W.
+  rewrite nth_firstn_lt in W by (apply Hs; simpl; auto). exact W.
+Qed.
+
+(* ================================================================ small facts on masks *)
+Lemma lbeq_eq : forall x y, lbeq x y = true -> x = y.
+Proof.
+  induction x as [|a x IH]; destruct y as [|b y]; simpl; intro H; try discriminate; [reflexivity|].
+  apply andb_true_iff in H as [H1 H2]. apply eqb_prop in H1. rewrite H1, (IH y H2). reflexivity.
+Qed.
+
+Lemma map2_andb_diag x : map2 andb x x = x.
+Proof. induction x as [|a x IH]; simpl; [reflexivity|]. rewrite IH, andb_diag. reflexivity. Qed.
+
+Lemma map2_orb_diag x : map2 orb x x = x.
+Proof. induction x as [|a x IH]; simpl; [reflexivity|]. rewrite IH, orb_diag. reflexivity. Qed.
+
+Lemma cmask_cat ms cs : cmask ms (CCat cs) = flat_map (cmask ms) cs.
+Proof. induction cs as [|c cs IH]; simpl; [reflexivity|]. f_equal; try exact IH. Qed.
+
+Lemma count_app a b : count (a ++ b) = count a + count b.
+Proof. unfold count. rewrite filter_app, app_length. reflexivity. Qed.
+
+Lemma count_repeat_true n : count (repeat true n) = n.
+Proof. induction n as [|n IH]; [reflexivity|]. unfold count in *. simpl. rewrite IH. reflexivity. Qed.
+
+Lemma count_repeat_false n : count (repeat false n) = 0.
+Proof. induction n as [|n IH]; [reflexivity|]. unfold count in *. simpl. exact IH. Qed.
+
+Lemma count_expand m l : count (expand m l) = m * count l.
+Proof.
+  induction l as [|b l IH]; [unfold expand, count; simpl; lia|].
+  unfold expand in *. simpl flat_map. rewrite count_app, IH.
+  destruct b.
+  - rewrite count_repeat_true. unfold count. simpl. lia.
+  - rewrite count_repeat_false. unfold count. simpl. lia.
+Qed.
+
+Lemma count_flat_map {A} (g : A -> list bool) l :
+  count (flat_map g l) = list_sum (map (fun x => count (g x)) l).
+Proof. induction l as [|a l IH]; [reflexivity|]. simpl. rewrite count_app, IH. reflexivity. Qed.
+
+(* ================================================================ per-node unfolding *)
+Lemma sound_at nt ms i : sound_b nt ms = true -> i < length nt ->
+  match node_at nt i with
+  | NLayer s _ Dw true => lbeq (ms i) (nth s (alive nt ms) [])
+  | NLayer s _ _ false => lbeq (nth s (alive nt ms) []) (repeat true (nth s (widths nt) 0))
+  | NBn s false => lbeq (nth s (alive nt ms) []) (repeat true (nth s (widths nt) 0))
+  | NJoin a b _ => lbeq (nth a (alive nt ms) []) (nth b (alive nt ms) [])
+  | _ => true
+  end = true.
+Proof.
+  intros H Hi. unfold sound_b in H. rewrite forallb_forall in H.
+  apply (H i). apply in_seq. lia.
+Qed.
+
+Lemma alive_nth nt ms i : i < length nt ->
+  nth i (alive nt ms) [] = alive_step ms (firstn i (alive nt ms)) (node_at nt i).
+Proof. intro H. apply nth_build. exact H. Qed.
+
+Lemma calcs_nth fixd nt i : i < length nt ->
+  nth i (calcs fixd nt) (CConst 0 0) = calc_step fixd (firstn i (calcs fixd nt)) (node_at nt i).
+Proof. intro H. apply nth_build. exact H. Qed.
+
+Lemma setters_nth nt i : i < length nt ->
+  nth i (setters nt) 0 = setter_step (firstn i (setters nt)) (node_at nt i).
+Proof. intro H. apply nth_build. exact H. Qed.
+
+Lemma widths_nth nt i : i < length nt ->
+  nth i (widths nt) 0 = width_step (firstn i (widths nt)) (node_at nt i).
+Proof. intro H. apply nth_build. exact H. Qed.
+
+Lemma xwidths_nth nt ms i : i < length nt ->
+  nth i (xwidths nt ms) 0 = xwidth_step ms (firstn i (xwidths nt ms)) (node_at nt i).
+Proof. intro H. apply nth_build. exact H. Qed.
+
+(* ================================================================ (1) ideal soundness *)
+Section Sound.
+Context (nt : net) (ms : nat -> list bool).
+Context (Hwf : wf nt = true) (Hsound : sound_b nt ms = true).
+
+Let al j := nth j (alive nt ms) [].
+Let ca j := nth j (calcs true nt) (CConst 0 0).
+
+Lemma calc_own : forall j, j < length nt -> cmask ms (ca j) = al j.
+Proof.
+  intro j. induction j as [j IH] using lt_wf_ind. intro Hj.
+  pose proof (wf_srcs nt j Hwf Hj) as Hs.
+  pose proof (sound_at nt ms j Hsound Hj) as Hsd.
+  unfold ca, al. rewrite calcs_nth, alive_nth by exact Hj.
+  unfold calc_step, alive_step. unfold calcs, alive.
+  rewrite !firstn_build_length by lia. fold (calcs true nt) (alive nt ms).
+  destruct (node_at nt j) as [c|s co k sr|s sr|s t|s m t|a b t|l] eqn:E; simpl in Hs.
+  - reflexivity.
+  - assert (Hsj : s < j) by (apply Hs; auto).
+    destruct k, sr; simpl.
+    + reflexivity.
+    + reflexivity.
+    + rewrite nth_firstn_lt by exact Hsj. apply lbeq_eq in Hsd. rewrite Hsd.
+      rewrite map2_andb_diag. reflexivity.
+    + rewrite !nth_firstn_lt by exact Hsj. apply IH; lia.
+  - assert (Hsj : s < j) by (apply Hs; auto).
+    rewrite !nth_firstn_lt by exact Hsj. apply IH; lia.
+  - assert (Hsj : s < j) by (apply Hs; auto).
+    rewrite !nth_firstn_lt by exact Hsj. apply IH; lia.
+  - assert (Hsj : s < j) by (apply Hs; auto).
+    rewrite !nth_firstn_lt by exact Hsj. simpl. f_equal. apply IH; lia.
+  - assert (Haj : a < j) by (apply Hs; auto).
+    assert (Hbj : b < j) by (apply Hs; auto).
+    rewrite !nth_firstn_lt by assumption. apply lbeq_eq in Hsd. rewrite <- Hsd.
+    rewrite map2_orb_diag. apply IH; lia.
+  - rewrite cmask_cat, flat_map_concat_map, map_map, <- flat_map_concat_map.
+    apply flat_map_ext_in'. intros x Hx. specialize (Hs x Hx).
+    rewrite !nth_firstn_lt by exact Hs. apply IH; lia.
+Qed.
+
+Lemma alive_setter : forall j, j < length nt ->
+  nth j (setters nt) 0 < length nt /\ al (nth j (setters nt) 0) = al j.
+Proof.
+  intro j. induction j as [j IH] using lt_wf_ind. intro Hj.
+  pose proof (wf_srcs nt j Hwf Hj) as Hs.
+  pose proof (sound_at nt ms j Hsound Hj) as Hsd.
+  rewrite setters_nth by exact Hj. unfold setter_step, setters.
+  rewrite !firstn_build_length by lia. fold (setters nt).
+  assert (Hal := alive_nth nt ms j Hj). unfold alive_step, alive in Hal.
+  rewrite ?firstn_build_length in Hal by lia. fold (alive nt ms) in Hal.
+  destruct (node_at nt j) as [c|s co k sr|s sr|s t|s m t|a b t|l] eqn:E; simpl in Hs |- *.
+  - auto.
+  - destruct k; [auto|].
+    assert (Hsj : s < j) by (apply Hs; auto).
+    rewrite nth_firstn_lt by exact Hsj. destruct (IH s Hsj ltac:(lia)) as [I1 I2].
+    split; [exact I1|]. rewrite I2. unfold al at 2. rewrite Hal.
+    rewrite nth_firstn_lt by exact Hsj. destruct sr; [|reflexivity].
+    apply lbeq_eq in Hsd. rewrite Hsd. rewrite map2_andb_diag. reflexivity.
+  - assert (Hsj : s < j) by (apply Hs; auto).
+    rewrite nth_firstn_lt by exact Hsj. destruct (IH s Hsj ltac:(lia)) as [I1 I2].
+    split; [exact I1|]. rewrite I2. unfold al at 2. rewrite Hal.
+    rewrite nth_firstn_lt by exact Hsj. reflexivity.
+  - assert (Hsj : s < j) by (apply Hs; auto).
+    rewrite nth_firstn_lt by exact Hsj. destruct (IH s Hsj ltac:(lia)) as [I1 I2].
+    split; [exact I1|]. rewrite I2. unfold al at 2. rewrite Hal.
+    rewrite nth_firstn_lt by exact Hsj. reflexivity.
+  - auto.
+  - assert (Haj : a < j) by (apply Hs; auto).
+    assert (Hbj : b < j) by (apply Hs; auto).
+    rewrite nth_firstn_lt by exact Haj. destruct (IH a Haj ltac:(lia)) as [I1 I2].
+    split; [exact I1|]. rewrite I2. unfold al at 2. rewrite Hal.
+    rewrite !nth_firstn_lt by assumption. apply lbeq_eq in Hsd. rewrite <- Hsd.
+    rewrite map2_orb_diag. reflexivity.
+  - auto.
+Qed.
+
+Theorem calc_ideal_sound_sec : forall i, i < length nt ->
+  cmask ms (nth (nth i (setters nt) 0) (calcs true nt) (CConst 0 0)) = nth i (alive nt ms) [].
+Proof.
+  intros i Hi. destruct (alive_setter i Hi) as [H1 H2].
+  fold (ca (nth i (setters nt) 0)). rewrite calc_own by exact H1. exact H2.
+Qed.
+
+End Sound.
+
+Theorem calc_ideal_sound : forall nt ms, wf nt = true -> sound_b nt ms = true ->
+  forall i, i < length nt ->
+    cmask ms (nth (nth i (setters nt) 0) (calcs true nt) (CConst 0 0)) = nth i (alive nt ms) [].
+Proof. intros nt ms H1 H2. exact (calc_ideal_sound_sec nt ms H1 H2). Qed.
+
+(* ================================================================ (2) coherent registration *)
+Fixpoint calc_ind2 (P : calc -> Prop)
+  (Hc : forall id c, P (CConst id c)) (Hm : forall i, P (CMod i))
+  (Hf : forall id p m, P p -> P (CFlat id p m))
+  (Hcat : forall cs, Forall P cs -> P (CCat cs)) (c : calc) : P c :=
+  match c with
+  | CConst id n => Hc id n
+  | CMod i => Hm i
+  | CFlat id p m => Hf id p m (calc_ind2 P Hc Hm Hf Hcat p)
+  | CCat cs => Hcat cs ((fix go (l : list calc) : Forall P l :=
+                           match l with
+                           | [] => Forall_nil P
+                           | x :: r => Forall_cons x (calc_ind2 P Hc Hm Hf Hcat x) (go r)
+                           end) cs)
+  end.
+
+Lemma smask_cat st ms cs : smask st ms (CCat cs) = flat_map (smask st ms) cs.
+Proof. induction cs as [|c cs IH]; simpl; [reflexivity|]. f_equal; try exact IH. Qed.
+
+Lemma sfeat_cat st ms cs : sfeat st ms (CCat cs) = list_sum (map (sfeat st ms) cs).
+Proof. induction cs as [|c cs IH]; simpl; [reflexivity|]. f_equal; try exact IH. Qed.
+
+Lemma coherent_cat st cs : coherent_b st (CCat cs) = forallb (coherent_b st) cs.
+Proof. induction cs as [|c cs IH]; simpl; [reflexivity|]. f_equal; try exact IH. Qed.
+
+Lemma coherent_eval : forall st ms c, coherent_b st c = true ->
+  smask st ms c = cmask ms c /\ sfeat st ms c = count (cmask ms c).
+Proof.
+  intros st ms c. induction c as [id n|i|id p m IH|cs IH] using calc_ind2; intro H.
+  - simpl in *. destruct (rd id st) as [v|]; [|discriminate].
+    apply Nat.eqb_eq in H. subst v. rewrite count_repeat_true. auto.
+  - simpl. auto.
+  - simpl in *. apply andb_true_iff in H as [H1 H2].
+    destruct (rd id st) as [v|]; [|discriminate].
+    apply Nat.eqb_eq in H1. subst v. destruct (IH H2) as [I1 I2].
+    rewrite I1, I2, count_expand. auto.
+  - rewrite coherent_cat in H. rewrite smask_cat, sfeat_cat, cmask_cat.
+    induction IH as [|c cs Hc Hcs IH2]; [simpl; auto|].
+    simpl in H. apply andb_true_iff in H as [H1 H2].
+    destruct (Hc H1) as [I1 I2]. destruct (IH2 H2) as [J1 J2].
+    simpl. rewrite I1, I2, J1, J2, count_app. auto.
+Qed.
+
+(* ================================================================ (3) calculators through the buffers *)
+Lemma consumer_src nt i : consumer nt i = true ->
+  In (src1 (node_at nt i)) (srcs_of (node_at nt i)).
+Proof.
+  unfold consumer. destruct (node_at nt i) as [c|s co k sr|s sr|s t|s m t|a b t|l];
+    try discriminate; simpl; auto.
+Qed.
+
+Lemma names_ok_at fixd nt i : names_ok fixd nt = true -> i < length nt -> consumer nt i = true ->
+  coherent_b (register_all fixd nt) (input_calc fixd nt i) = true.
+Proof.
+  intros H Hi Hc. unfold names_ok in H. rewrite forallb_forall in H.
+  specialize (H i ltac:(apply in_seq; lia)). rewrite Hc in H. exact H.
+Qed.
+
+Theorem calc_sound : forall nt ms, wf nt = true -> sound_b nt ms = true -> names_ok true nt = true ->
+  forall i, i < length nt -> consumer nt i = true ->
+    smask (register_all true nt) ms (input_calc true nt i) = nth (src1 (node_at nt i)) (alive nt ms) [] /\
+    sfeat (register_all true nt) ms (input_calc true nt i) = count (nth (src1 (node_at nt i)) (alive nt ms) []).
+Proof.
+  intros nt ms Hwf Hs Hn i Hi Hc.
+  pose proof (wf_srcs nt i Hwf Hi _ (consumer_src nt i Hc)) as Hlt.
+  pose proof (calc_ideal_sound nt ms Hwf Hs (src1 (node_at nt i)) ltac:(lia)) as Hid.
+  fold (input_calc true nt i) in Hid.
+  destruct (coherent_eval _ ms _ (names_ok_at true nt i Hn Hi Hc)) as [E1 E2].
+  rewrite E1, E2, Hid. auto.
+Qed.
+
+Corollary in_features_export : forall nt ms, wf nt = true -> sound_b nt ms = true -> names_ok true nt = true ->
+  forall i, i < length nt -> consumer nt i = true ->
+    export_in true nt ms i = count (nth (src1 (node_at nt i)) (alive nt ms) []).
+Proof.
+  intros nt ms Hwf Hs Hn i Hi Hc. unfold export_in. rewrite Hc.
+  destruct (calc_sound nt ms Hwf Hs Hn i Hi Hc) as [E _]. rewrite E. reflexivity.
+Qed.
+
+(* ================================================================ (4) exported shapes *)
+Lemma xwidth_count : forall nt ms, wf nt = true -> sound_b nt ms = true ->
+  forall j, j < length nt -> nth j (xwidths nt ms) 0 = count (nth j (alive nt ms) []).
+Proof.
+  intros nt ms Hwf Hsound j. induction j as [j IH] using lt_wf_ind. intro Hj.
+  pose proof (wf_srcs nt j Hwf Hj) as Hs.
+  pose proof (sound_at nt ms j Hsound Hj) as Hsd.
+  rewrite xwidths_nth, alive_nth by exact Hj.
+  unfold xwidth_step, alive_step. unfold xwidths, alive.
+  rewrite !firstn_build_length by lia. fold (xwidths nt ms) (alive nt ms).
+  destruct (node_at nt j) as [c|s co k sr|s sr|s t|s m t|a b t|l] eqn:E; simpl in Hs.
+  - rewrite count_repeat_true. reflexivity.
+  - assert (Hsj : s < j) by (apply Hs; auto).
+    destruct k, sr.
+    + reflexivity.
+    + rewrite count_repeat_true. reflexivity.
+    + rewrite nth_firstn_lt by exact Hsj. apply lbeq_eq in Hsd. rewrite Hsd.
+      rewrite map2_andb_diag. reflexivity.
+    + rewrite nth_firstn_lt by exact Hsj. apply lbeq_eq in Hsd. rewrite Hsd.
+      rewrite count_repeat_true. apply (wf_dw nt j s co false Hwf Hj E).
+  - assert (Hsj : s < j) by (apply Hs; auto).
+    rewrite !nth_firstn_lt by exact Hsj. apply IH; lia.
+  - assert (Hsj : s < j) by (apply Hs; auto).
+    rewrite !nth_firstn_lt by exact Hsj. apply IH; lia.
+  - assert (Hsj : s < j) by (apply Hs; auto).
+    rewrite !nth_firstn_lt by exact Hsj. rewrite count_expand, IH by lia. apply Nat.mul_comm.
+  - assert (Haj : a < j) by (apply Hs; auto).
+    assert (Hbj : b < j) by (apply Hs; auto).
+    rewrite !nth_firstn_lt by assumption. apply lbeq_eq in Hsd. rewrite <- Hsd.
+    rewrite map2_orb_diag. apply IH; lia.
+  - rewrite count_flat_map. f_equal. apply map_ext_in. intros x Hx. specialize (Hs x Hx).
+    rewrite !nth_firstn_lt by exact Hs. apply IH; lia.
+Qed.
+
+Theorem export_shape_consistent : forall nt ms, wf nt = true -> sound_b nt ms = true ->
+  names_ok true nt = true -> shape_ok true nt ms = true.
+Proof.
+  intros nt ms Hwf Hsound Hn. unfold shape_ok. apply forallb_forall. intros i Hi.
+  apply in_seq in Hi. assert (Hlt : i < length nt) by lia. clear Hi.
+  pose proof (wf_srcs nt i Hwf Hlt) as Hs.
+  pose proof (sound_at nt ms i Hsound Hlt) as Hsd.
+  pose proof (in_features_export nt ms Hwf Hsound Hn i Hlt) as Hex.
+  assert (Hxw : forall j, j < i -> nth j (xwidths nt ms) 0 = count (nth j (alive nt ms) []))
+    by (intros j Hj; apply xwidth_count; auto; lia).
+  unfold export_in, consumer, fused in *.
+  destruct (node_at nt i) as [c|s co k sr|s sr|s t|s m t|a b t|l] eqn:E; simpl in Hs, Hex; auto.
+  - assert (Hsj : s < i) by (apply Hs; auto).
+    destruct sr.
+    + specialize (Hex eq_refl).
+      destruct k.
+      * apply Nat.eqb_eq. rewrite Hex, Hxw by exact Hsj. reflexivity.
+      * apply lbeq_eq in Hsd. rewrite Hex, Hxw, Hsd by exact Hsj.
+        rewrite !Nat.eqb_refl. reflexivity.
+    + assert (Hw : nth s (widths nt) 0 = nth s (xwidths nt ms) 0).
+      { rewrite Hxw by exact Hsj. destruct k; apply lbeq_eq in Hsd; rewrite Hsd, count_repeat_true; reflexivity. }
+      destruct k; apply Nat.eqb_eq; exact Hw.
+  - assert (Hsj : s < i) by (apply Hs; auto).
+    destruct sr.
+    + destruct (match node_at nt s with NLayer _ _ _ true => true | _ => false end) eqn:F;
+        [reflexivity|]. simpl in *. specialize (Hex eq_refl).
+      apply Nat.eqb_eq. rewrite Hex, Hxw by exact Hsj. reflexivity.
+    + apply orb_true_iff. right. apply Nat.eqb_eq. apply lbeq_eq in Hsd.
+      rewrite Hxw, Hsd, count_repeat_true by exact Hsj. reflexivity.
+  - assert (Haj : a < i) by (apply Hs; auto).
+    assert (Hbj : b < i) by (apply Hs; auto).
+    apply lbeq_eq in Hsd. apply Nat.eqb_eq. rewrite !Hxw by assumption. rewrite Hsd. reflexivity.
+Qed.
+
+(* ================================================================ (5) sharing partition *)
+Lemma labels_snoc nt nd : labels (nt ++ [nd]) = label_step (labels nt) nd.
+Proof. unfold labels. rewrite fold_left_app. reflexivity. Qed.
+
+Lemma labels_split l1 x l2 : labels (l1 ++ x :: l2) = fold_left label_step l2 (label_step (labels l1) x).
+Proof. unfold labels. rewrite fold_left_app. reflexivity. Qed.
+
+Lemma label_step_shape acc nd : exists h v, label_step acc nd = map h acc ++ [v].
+Proof.
+  destruct nd as [c|s co k sr|s sr|s t|s m t|a b t|l];
+    try (unfold label_step; destruct (is_cut _);
+         eexists (fun l => l), _; rewrite map_id; reflexivity).
+  simpl. eexists _, _. reflexivity.
+Qed.
+
+Lemma label_step_length acc nd : length (label_step acc nd) = S (length acc).
+Proof.
+  destruct (label_step_shape acc nd) as (h & v & E). rewrite E, app_length, map_length. simpl. lia.
+Qed.
+
+Lemma labels_length nt : length (labels nt) = length nt.
+Proof.
+  induction nt as [|x nt IH] using rev_ind; [reflexivity|].
+  rewrite labels_snoc, label_step_length, app_length, IH. simpl. lia.
+Qed.
+
+Lemma nth_map_lt {A B} (h : A -> B) l i d d' : i < length l -> nth i (map h l) d' = h (nth i l d).
+Proof.
+  intro H. rewrite (nth_indep _ d' (h d)) by (rewrite map_length; exact H). apply map_nth.
+Qed.
+
+Lemma label_step_keeps_eq acc nd x y : x < length acc -> y < length acc ->
+  nth x acc 0 = nth y acc 0 -> nth x (label_step acc nd) 0 = nth y (label_step acc nd) 0.
+Proof.
+  intros Hx Hy E. destruct (label_step_shape acc nd) as (h & v & S). rewrite S.
+  rewrite !app_nth1 by (rewrite map_length; assumption).
+  rewrite !(nth_map_lt h acc _ 0 0) by assumption. rewrite E. reflexivity.
+Qed.
+
+Lemma fold_keeps_eq : forall l2 acc x y, x < length acc -> y < length acc ->
+  nth x acc 0 = nth y acc 0 ->
+  nth x (fold_left label_step l2 acc) 0 = nth y (fold_left label_step l2 acc) 0.
+Proof.
+  induction l2 as [|nd l2 IH]; intros acc x y Hx Hy E; simpl; [exact E|].
+  apply IH; rewrite ?label_step_length; try lia. apply label_step_keeps_eq; assumption.
+Qed.
+
+Theorem join_same_component : forall nt i a b t, wf nt = true -> i < length nt ->
+  node_at nt i = NJoin a b t ->
+  nth a (labels nt) 0 = nth b (labels nt) 0 /\ nth i (labels nt) 0 = nth a (labels nt) 0.
+Proof.
+  intros nt i a b t Hwf Hi E.
+  pose proof (wf_srcs nt i Hwf Hi) as Hs. rewrite E in Hs. simpl in Hs.
+  assert (Ha : a < i) by (apply Hs; auto). assert (Hb : b < i) by (apply Hs; auto).
+  destruct (nth_split nt (NIn 0) Hi) as (l1 & l2 & Sp & Hl).
+  unfold node_at in E. rewrite E in Sp. rewrite Sp, labels_split.
+  pose proof (labels_length l1) as LL.
+  assert (K : forall acc, length acc = i ->
+     nth a (label_step acc (NJoin a b t)) 0 = nth a acc 0 /\
+     nth b (label_step acc (NJoin a b t)) 0 = nth a acc 0 /\
+     nth i (label_step acc (NJoin a b t)) 0 = nth a acc 0).
+  { intros acc La. simpl.
+    rewrite !app_nth1 by (rewrite map_length; lia).
+    rewrite app_nth2 by (rewrite map_length; lia).
+    rewrite map_length, La, Nat.sub_diag.
+    rewrite !(nth_map_lt _ acc _ 0 0) by lia. rewrite Nat.eqb_refl.
+    destruct (nth a acc 0 =? nth b acc 0); auto. }
+  destruct (K (labels l1) ltac:(lia)) as (K1 & K2 & K3).
+  split; apply fold_keeps_eq; rewrite ?label_step_length; try lia; congruence.
+Qed.
+
+Theorem through_same_component : forall nt i, wf nt = true -> i < length nt ->
+  is_cut (node_at nt i) = false -> (forall a b t, node_at nt i <> NJoin a b t) ->
+  nth i (labels nt) 0 = nth (src1 (node_at nt i)) (labels nt) 0.
+Proof.
+  intros nt i Hwf Hi Hc Hj.
+  pose proof (wf_srcs nt i Hwf Hi) as Hs.
+  destruct (nth_split nt (NIn 0) Hi) as (l1 & l2 & Sp & Hl).
+  unfold node_at in *. remember (nth i nt (NIn 0)) as nd eqn:End. clear End.
+  rewrite Sp, labels_split. pose proof (labels_length l1) as LL.
+  assert (Hsrc : src1 nd < i).
+  { apply Hs. destruct nd as [c|s co k sr|s sr|s t|s m t|a b t|l]; simpl in Hc |- *; auto; discriminate. }
+  assert (St : label_step (labels l1) nd = labels l1 ++ [nth (src1 nd) (labels l1) 0]).
+  { destruct nd as [c|s co k sr|s sr|s t|s m t|a b t|l];
+      try (unfold label_step; rewrite Hc; reflexivity).
+    exfalso. exact (Hj a b t eq_refl). }
+  apply fold_keeps_eq; rewrite ?label_step_length; try lia.
+  rewrite St, app_nth2, app_nth1 by lia.
+  replace (i - length (labels l1)) with 0 by lia. reflexivity.
+Qed.
+
+Theorem shared_groups_equal_masks : forall fixd nt x y,
+  is_search_layer (node_at nt x) = true -> is_search_layer (node_at nt y) = true ->
+  x < length nt -> y < length nt ->
+  nth x (labels nt) 0 = nth y (labels nt) 0 -> masker_of fixd nt x = masker_of fixd nt y.
+Proof.
+  intros fixd nt x y Sx Sy Hx Hy E. unfold masker_of. rewrite <- E.
+  destruct (has_masker nt (nth x (labels nt) 0) || fixd); [|reflexivity].
+  f_equal. f_equal.
+  assert (M : forall z, z < length nt -> is_search_layer (node_at nt z) = true ->
+     nth z (labels nt) 0 = nth x (labels nt) 0 ->
+     In z (filter (fun j => is_search_layer (node_at nt j)) (members nt (nth x (labels nt) 0)))).
+  { intros z Hz Sz Ez. apply filter_In. split; [|exact Sz].
+    unfold members. apply filter_In. split; [apply in_seq; lia|]. apply Nat.eqb_eq. exact Ez. }
+  apply (hd_indep _ x). apply M; auto.
+Qed.
+
+(* ================================================================ (6) buffer names of the repaired code *)
+Lemma key_eqb_eq a b : key_eqb a b = true <-> a = b.
+Proof.
+  destruct a as [[c1 b1] p1], b as [[c2 b2] p2]. simpl.
+  destruct (list_eq_dec Nat.eq_dec p1 p2) as [e|ne].
+  - rewrite andb_true_r, andb_true_iff, !Nat.eqb_eq.
+    split; [intros [H1 H2]; subst; reflexivity | intro H; inversion H; auto].
+  - rewrite andb_false_r. split; [discriminate | intro H; inversion H; contradiction].
+Qed.
+
+Definition used (st : rstate) (k : key) : Prop := exists id, lookup_reg id st = Some k.
+
+Lemma write_old id k v st k0 : lookup_reg id st = Some k0 -> write id k v st = st.
+Proof. intro H. unfold write. rewrite H. reflexivity. Qed.
+
+Lemma write_new_reg id k v st id0 : lookup_reg id st = None ->
+  lookup_reg id0 (write id k v st) = if id =? id0 then Some k else lookup_reg id0 st.
+Proof.
+  intro H. unfold write. rewrite H. unfold lookup_reg. simpl. destruct (id =? id0); reflexivity.
+Qed.
+
+Lemma write_new_store id k v st k0 : lookup_reg id st = None ->
+  lookup_store k0 (write id k v st) = if key_eqb k k0 then Some v else lookup_store k0 st.
+Proof.
+  intro H. unfold write. rewrite H. unfold lookup_store. simpl. destruct (key_eqb k k0); reflexivity.
+Qed.
+
+(* the (id, value) pairs of all constants of a calculator *)
+Fixpoint consts (c : calc) : list (nat * nat) :=
+  match c with
+  | CConst id n => [(id, n)]
+  | CMod _ => []
+  | CFlat id p m => consts p ++ [(id, m)]
+  | CCat cs => (fix go (l : list calc) := match l with [] => [] | x :: r => consts x ++ go r end) cs
+  end.
+
+Lemma consts_cat cs : consts (CCat cs) = flat_map consts cs.
+Proof. induction cs as [|c cs IH]; simpl; [reflexivity|]. f_equal; try exact IH. Qed.
+
+Lemma coherent_of_consts st c :
+  (forall id v, In (id, v) (consts c) -> rd id st = Some v) -> coherent_b st c = true.
+Proof.
+  induction c as [id n|i|id p m IH|cs IH] using calc_ind2; intro H.
+  - simpl. rewrite (H id n) by (simpl; auto). apply Nat.eqb_refl.
+  - reflexivity.
+  - simpl. rewrite (H id m) by (simpl; apply in_or_app; simpl; auto).
+    rewrite Nat.eqb_refl. simpl. apply IH. intros id' v' Hin. apply H. simpl.
+    apply in_or_app. left. exact Hin.
+  - rewrite coherent_cat. rewrite consts_cat in H.
+    induction IH as [|c cs Hc Hcs IH2]; [reflexivity|]. simpl in *.
+    rewrite Hc by (intros; apply H; apply in_or_app; left; assumption).
+    rewrite IH2 by (intros; apply H; apply in_or_app; right; assumption). reflexivity.
+Qed.
+
+Fixpoint reg_loop (cn : nat) (l : list calc) (k : nat) (P : list nat) (st : rstate) : rstate :=
+  match l with
+  | [] => st
+  | x :: r => reg_loop cn r (S k) (S k :: P) (reg true cn (S k :: P) x st)
+  end.
+
+Lemma reg_cat cn P cs st : reg true cn P (CCat cs) st = reg_loop cn cs 0 P st.
+Proof.
+  simpl. generalize 0 as k. revert P st.
+  induction cs as [|c cs IH]; intros P st k; simpl; [reflexivity|]. apply IH.
+Qed.
+
+Section Names.
+Context (vl : nat -> nat).
+
+Definition I1 (st : rstate) : Prop :=
+  forall id k, lookup_reg id st = Some k -> lookup_store k st = Some (vl id).
+
+Definition walk_pre (cn : nat) (R : list nat -> Prop) (st : rstate) : Prop :=
+  I1 st /\ forall b Q, R Q -> ~ used st (cn, b, Q).
+
+Definition walk_post (cn : nat) (R : list nat -> Prop) (cl : list (nat * nat)) (st st' : rstate) : Prop :=
+  I1 st' /\
+  (forall id k, lookup_reg id st = Some k -> lookup_reg id st' = Some k) /\
+  (forall id v, In (id, v) cl -> exists k, lookup_reg id st' = Some k) /\
+  (forall k0, used st' k0 -> used st k0 \/ exists b Q, R Q /\ k0 = (cn, b, Q)).
+
+Lemma pre_sub cn (R R' : list nat -> Prop) st :
+  walk_pre cn R st -> (forall Q, R' Q -> R Q) -> walk_pre cn R' st.
+Proof. intros [H1 H2] Hs. split; [exact H1|]. intros b Q HQ. apply H2. apply Hs. exact HQ. Qed.
+
+Lemma post_sub cn (R R' : list nat -> Prop) cl st st' :
+  walk_post cn R' cl st st' -> (forall Q, R' Q -> R Q) -> walk_post cn R cl st st'.
+Proof.
+  intros (H1 & H2 & H3 & H4) Hs. repeat split; auto.
+  intros k0 Hu. destruct (H4 k0 Hu) as [|(b & Q & HQ & E)]; [left; assumption|].
+  right. exists b, Q. auto.
+Qed.
+
+Lemma pre_after cn (R R1 R2 : list nat -> Prop) cl st st1 :
+  walk_pre cn R st -> walk_post cn R1 cl st st1 ->
+  (forall Q, R2 Q -> R Q) -> (forall Q, R1 Q -> R2 Q -> False) -> walk_pre cn R2 st1.
+Proof.
+  intros [P1 P2] (H1 & H2 & H3 & H4) Hs Hd. split; [exact H1|].
+  intros b Q HQ Hu. destruct (H4 _ Hu) as [Hu0|(b' & Q' & HQ' & E)].
+  - exact (P2 b Q (Hs Q HQ) Hu0).
+  - inversion E; subst. exact (Hd _ HQ' HQ).
+Qed.
+
+Lemma walk_seq cn (R R1 R2 : list nat -> Prop) cl1 cl2 st st1 st2 :
+  walk_post cn R1 cl1 st st1 -> walk_post cn R2 cl2 st1 st2 ->
+  (forall Q, R1 Q -> R Q) -> (forall Q, R2 Q -> R Q) ->
+  walk_post cn R (cl1 ++ cl2) st st2.
+Proof.
+  intros (A1 & A2 & A3 & A4) (B1 & B2 & B3 & B4) S1 S2. split; [exact B1|].
+  split; [intros; apply B2, A2; assumption|]. split.
+  - intros id v Hin. apply in_app_or in Hin as [Hin|Hin].
+    + destruct (A3 id v Hin) as [k Hk]. exists k. apply B2. exact Hk.
+    + exact (B3 id v Hin).
+  - intros k0 Hu. destruct (B4 k0 Hu) as [Hu1|(b & Q & HQ & E)].
+    + destruct (A4 k0 Hu1) as [|(b & Q & HQ & E)]; [left; assumption|].
+      right. exists b, Q. auto.
+    + right. exists b, Q. auto.
+Qed.
+
+Lemma write_walk cn id b P v st :
+  v = vl id -> walk_pre cn (fun Q => Q = P) st ->
+  walk_post cn (fun Q => Q = P) [(id, v)] st (write id (cn, b, P) v st).
+Proof.
+  intros Hv [HI Hfresh]. destruct (lookup_reg id st) as [k0|] eqn:L.
+  - rewrite (write_old _ _ _ _ _ L). split; [exact HI|]. split; [auto|]. split.
+    + intros id' v' [H|[]]. inversion H; subst. eauto.
+    + intros k1 Hu. left. exact Hu.
+  - split.
+    { intros id0 k0 H0. rewrite write_new_reg in H0 by exact L.
+      rewrite write_new_store by exact L.
+      destruct (id =? id0) eqn:Eid.
+      - inversion H0; subst k0. apply Nat.eqb_eq in Eid. subst id0.
+        rewrite (proj2 (key_eqb_eq _ _) eq_refl). rewrite Hv. reflexivity.
+      - destruct (key_eqb (cn, b, P) k0) eqn:Ek.
+        + apply key_eqb_eq in Ek. subst k0. exfalso.
+          apply (Hfresh b P eq_refl). exists id0. exact H0.
+        + apply HI. exact H0. }
+    split.
+    { intros id0 k0 H0. rewrite write_new_reg by exact L.
+      destruct (id =? id0) eqn:Eid; [|exact H0]. apply Nat.eqb_eq in Eid. subst. congruence. }
+    split.
+    { intros id' v' [H|[]]. inversion H; subst. exists (cn, b, P).
+      rewrite write_new_reg by exact L. rewrite Nat.eqb_refl. reflexivity. }
+    intros k1 [id1 H1]. rewrite write_new_reg in H1 by exact L.
+    destruct (id =? id1).
+    + inversion H1. right. exists b, P. auto.
+    + left. exists id1. exact H1.
+Qed.
+
+Definition Rg (P Q : list nat) : Prop := exists X, last X 0 <= 1 /\ Q = X ++ P.
+Definition RL (k : nat) (P Q : list nat) : Prop := exists Z, last Z 0 = S k /\ Q = Z ++ P.
+
+Lemma app_cons_snoc {A} (X : list A) a P : X ++ a :: P = (X ++ [a]) ++ P.
+Proof. rewrite <- app_assoc. reflexivity. Qed.
+
+Definition walk_spec (c : calc) : Prop :=
+  forall cn P st, (forall id v, In (id, v) (consts c) -> v = vl id) ->
+    walk_pre cn (Rg P) st -> walk_post cn (Rg P) (consts c) st (reg true cn P c st).
+
+Lemma loop_walk : forall cs, Forall walk_spec cs ->
+  forall cn k P st, (forall id v, In (id, v) (flat_map consts cs) -> v = vl id) ->
+    walk_pre cn (RL k P) st ->
+    walk_post cn (RL k P) (flat_map consts cs) st (reg_loop cn cs k P st).
+Proof.
+  intros cs HF. induction HF as [|c cs Hc Hcs IH]; intros cn k P st Hl Hpre.
+  - simpl. destruct Hpre as [HI _]. split; [exact HI|]. split; [auto|].
+    split; [intros id v []|]. intros k0 Hu. left. exact Hu.
+  - simpl.
+    assert (S1 : forall Q, Rg (S k :: P) Q -> RL k P Q).
+    { intros Q (X & HX & E). exists (X ++ [S k]). rewrite last_last. split; [reflexivity|].
+      rewrite E. apply app_cons_snoc. }
+    assert (S2 : forall Q, RL (S k) (S k :: P) Q -> RL k P Q).
+    { intros Q (Z & HZ & E). exists (Z ++ [S k]). rewrite last_last. split; [reflexivity|].
+      rewrite E. apply app_cons_snoc. }
+    assert (D : forall Q, Rg (S k :: P) Q -> RL (S k) (S k :: P) Q -> False).
+    { intros Q (X & HX & E) (Z & HZ & E'). rewrite E in E'. apply app_inv_tail in E'. subst Z. lia. }
+    pose proof (Hc cn (S k :: P) st
+                  (fun id v Hin => Hl id v (in_or_app _ _ _ (or_introl Hin)))
+                  (pre_sub _ _ _ _ Hpre S1)) as Post1.
+    pose proof (pre_after _ _ _ _ _ _ _ Hpre Post1 S2 D) as Pre2.
+    pose proof (IH cn (S k) (S k :: P) _
+                  (fun id v Hin => Hl id v (in_or_app _ _ _ (or_intror Hin))) Pre2) as Post2.
+    exact (walk_seq _ _ _ _ _ _ _ _ _ Post1 Post2 S1 S2).
+Qed.
+
+Lemma reg_walk : forall c, walk_spec c.
+Proof.
+  intro c. induction c as [id n|i|id p m IH|cs IH] using calc_ind2; intros cn P st Hl Hpre.
+  - simpl.
+    assert (S0 : forall Q, Q = P -> Rg P Q) by (intros Q ->; exists []; simpl; split; [lia|reflexivity]).
+    apply (post_sub _ _ (fun Q => Q = P)); [|exact S0].
+    apply write_walk; [apply Hl; simpl; auto|]. exact (pre_sub _ _ _ _ Hpre S0).
+  - simpl. destruct Hpre as [HI _]. split; [exact HI|]. split; [auto|].
+    split; [intros id v []|]. intros k0 Hu. left. exact Hu.
+  - simpl.
+    assert (S0 : forall Q, Q = P -> Rg P Q) by (intros Q ->; exists []; simpl; split; [lia|reflexivity]).
+    assert (S1 : forall Q, Rg (0 :: P) Q -> Rg P Q).
+    { intros Q (X & HX & E). exists (X ++ [0]). rewrite last_last. split; [lia|].
+      rewrite E. apply app_cons_snoc. }
+    assert (D : forall Q, Rg (0 :: P) Q -> Q = P -> False).
+    { intros Q (X & HX & E) E'. rewrite E' in E. apply (f_equal (@length nat)) in E.
+      rewrite app_length in E. simpl in E. lia. }
+    simpl in Hl.
+    pose proof (IH cn (0 :: P) st
+                  (fun id' v Hin => Hl id' v (in_or_app _ _ _ (or_introl Hin)))
+                  (pre_sub _ _ _ _ Hpre S1)) as Post1.
+    pose proof (pre_after _ _ _ _ _ _ _ Hpre Post1 S0 D) as Pre2.
+    assert (Hv : m = vl id) by (apply Hl; apply in_or_app; simpl; auto).
+    pose proof (write_walk cn id 1 P m _ Hv Pre2) as Post2.
+    exact (walk_seq _ _ _ _ _ _ _ _ _ Post1 Post2 S1 S0).
+  - rewrite reg_cat, consts_cat. rewrite consts_cat in Hl.
+    assert (S1 : forall Q, RL 0 P Q -> Rg P Q).
+    { intros Q (Z & HZ & E). exists Z. split; [lia|exact E]. }
+    apply (post_sub _ _ (RL 0 P)); [|exact S1].
+    apply loop_walk; [exact IH|exact Hl|]. exact (pre_sub _ _ _ _ Hpre S1).
+Qed.
+
+End Names.
+
+(* the constant attached to a node id *)
+Definition val (nt : net) (id : nat) : nat :=
+  match node_at nt id with NIn c => c | NLayer _ co _ _ => co | NFlat _ m _ => m | _ => 0 end.
+
+Lemma setter_le nt : wf nt = true -> forall j, j < length nt -> nth j (setters nt) 0 <= j.
+Proof.
+  intros Hwf j. induction j as [j IH] using lt_wf_ind. intro Hj.
+  pose proof (wf_srcs nt j Hwf Hj) as Hs.
+  rewrite setters_nth by exact Hj. unfold setter_step, setters.
+  rewrite !firstn_build_length by lia. fold (setters nt).
+  destruct (node_at nt j) as [c|s co k sr|s sr|s t|s m t|a b t|l] eqn:E; simpl in Hs |- *; auto.
+  - destruct k; [auto|]. assert (Hsj : s < j) by (apply Hs; auto).
+    rewrite nth_firstn_lt by exact Hsj. specialize (IH s Hsj ltac:(lia)). lia.
+  - assert (Hsj : s < j) by (apply Hs; auto).
+    rewrite nth_firstn_lt by exact Hsj. specialize (IH s Hsj ltac:(lia)). lia.
+  - assert (Hsj : s < j) by (apply Hs; auto).
+    rewrite nth_firstn_lt by exact Hsj. specialize (IH s Hsj ltac:(lia)). lia.
+  - assert (Hsj : a < j) by (apply Hs; auto).
+    rewrite nth_firstn_lt by exact Hsj. specialize (IH a Hsj ltac:(lia)). lia.
+Qed.
+
+Lemma calcs_legal nt : wf nt = true -> forall j, j < length nt ->
+  forall id v, In (id, v) (consts (nth j (calcs true nt) (CConst 0 0))) -> v = val nt id.
+Proof.
+  intros Hwf j. induction j as [j IH] using lt_wf_ind. intros Hj id v.
+  pose proof (wf_srcs nt j Hwf Hj) as Hs.
+  rewrite calcs_nth by exact Hj. unfold calc_step, calcs.
+  rewrite !firstn_build_length by lia. fold (calcs true nt).
+  destruct (node_at nt j) as [c|s co k sr|s sr|s t|s m t|a b t|l] eqn:E; simpl in Hs.
+  - simpl. intros [H|[]]. inversion H; subst. unfold val. rewrite E. reflexivity.
+  - assert (Hsj : s < j) by (apply Hs; auto).
+    destruct k, sr; simpl.
+    + intros [].
+    + intros [H|[]]. inversion H; subst. unfold val. rewrite E. reflexivity.
+    + intros [].
+    + rewrite nth_firstn_lt by exact Hsj. apply IH; lia.
+  - assert (Hsj : s < j) by (apply Hs; auto).
+    rewrite nth_firstn_lt by exact Hsj. apply IH; lia.
+  - assert (Hsj : s < j) by (apply Hs; auto).
+    rewrite nth_firstn_lt by exact Hsj. apply IH; lia.
+  - assert (Hsj : s < j) by (apply Hs; auto).
+    rewrite nth_firstn_lt by exact Hsj. simpl. intro H. apply in_app_or in H as [H|[H|[]]].
+    + revert H. apply IH; lia.
+    + inversion H; subst. unfold val. rewrite E. reflexivity.
+  - assert (Hsj : a < j) by (apply Hs; auto).
+    rewrite nth_firstn_lt by exact Hsj. apply IH; lia.
+  - rewrite consts_cat. intro H. apply in_flat_map in H as (c & Hc & Hin).
+    apply in_map_iff in Hc as (x & Ex & Hx). subst c. specialize (Hs x Hx).
+    rewrite nth_firstn_lt in Hin by exact Hs. revert Hin. apply IH; lia.
+Qed.
+
+Lemma input_calc_legal nt i : wf nt = true -> i < length nt -> consumer nt i = true ->
+  forall id v, In (id, v) (consts (input_calc true nt i)) -> v = val nt id.
+Proof.
+  intros Hwf Hi Hc. pose proof (wf_srcs nt i Hwf Hi _ (consumer_src nt i Hc)) as Hlt.
+  pose proof (setter_le nt Hwf (src1 (node_at nt i)) ltac:(lia)) as Hle.
+  unfold input_calc. apply calcs_legal; [exact Hwf|lia].
+Qed.
+
+Definition reg_fold (nt : net) (n : nat) : rstate :=
+  fold_left (fun st i => if consumer nt i then reg true i [] (input_calc true nt i) st else st)
+            (seq 0 n) {| regs := []; store := [] |}.
+
+Lemma reg_fold_inv nt : wf nt = true -> forall n, n <= length nt ->
+  I1 (val nt) (reg_fold nt n) /\
+  (forall c b Q, used (reg_fold nt n) (c, b, Q) -> c < n) /\
+  (forall i, i < n -> consumer nt i = true -> forall id v,
+     In (id, v) (consts (input_calc true nt i)) -> exists k, lookup_reg id (reg_fold nt n) = Some k).
+Proof.
+  intros Hwf n. induction n as [|n IH]; intro Hn.
+  - unfold reg_fold. simpl. split; [intros id k H; discriminate|].
+    split; [intros c b Q [id H]; discriminate|]. intros i Hi. lia.
+  - destruct (IH ltac:(lia)) as (J1 & J2 & J3).
+    unfold reg_fold in *. rewrite seq_S, fold_left_app. simpl.
+    set (st := fold_left _ (seq 0 n) _) in *.
+    destruct (consumer nt n) eqn:Hc.
+    + assert (Hpre : walk_pre (val nt) n (Rg []) st).
+      { split; [exact J1|]. intros b Q _ Hu. specialize (J2 _ _ _ Hu). lia. }
+      destruct (reg_walk (val nt) (input_calc true nt n) n [] st
+                  (input_calc_legal nt n Hwf ltac:(lia) Hc) Hpre) as (K1 & K2 & K3 & K4).
+      split; [exact K1|]. split.
+      * intros c b Q Hu. destruct (K4 _ Hu) as [Hu0|(b' & Q' & _ & E)].
+        -- specialize (J2 _ _ _ Hu0). lia.
+        -- inversion E. lia.
+      * intros i Hi Hci id v Hin. destruct (Nat.eq_dec i n) as [->|Hne].
+        -- exact (K3 id v Hin).
+        -- destruct (J3 i ltac:(lia) Hci id v Hin) as [k Hk]. exists k. apply K2. exact Hk.
+    + split; [exact J1|]. split.
+      * intros c b Q Hu. specialize (J2 _ _ _ Hu). lia.
+      * intros i Hi Hci id v Hin. destruct (Nat.eq_dec i n) as [->|Hne]; [congruence|].
+        apply (J3 i ltac:(lia) Hci id v Hin).
+Qed.
+
+Theorem names_ok_fixed : forall nt, wf nt = true -> names_ok true nt = true.
+Proof.
+  intros nt Hwf. unfold names_ok. apply forallb_forall. intros i Hi. apply in_seq in Hi.
+  destruct (consumer nt i) eqn:Hc; [|reflexivity]. simpl.
+  destruct (reg_fold_inv nt Hwf (length nt) (le_n _)) as (J1 & _ & J3).
+  change (register_all true nt) with (reg_fold nt (length nt)).
+  apply coherent_of_consts. intros id v Hin.
+  destruct (J3 i ltac:(lia) Hc id v Hin) as [k Hk].
+  unfold rd. rewrite Hk. rewrite (J1 id k Hk).
+  rewrite (input_calc_legal nt i Hwf ltac:(lia) Hc id v Hin). reflexivity.
+Qed.
+
+(* consequences without the names_ok premise *)
+Corollary calc_sound_fixed : forall nt ms, wf nt = true -> sound_b nt ms = true ->
+  forall i, i < length nt -> consumer nt i = true ->
+    smask (register_all true nt) ms (input_calc true nt i) = nth (src1 (node_at nt i)) (alive nt ms) [] /\
+    sfeat (register_all true nt) ms (input_calc true nt i) = count (nth (src1 (node_at nt i)) (alive nt ms) []).
+Proof. intros nt ms Hwf Hs. apply calc_sound; auto using names_ok_fixed. Qed.
+
+Corollary export_shape_consistent_fixed : forall nt ms, wf nt = true -> sound_b nt ms = true ->
+  shape_ok true nt ms = true.
+Proof. intros nt ms Hwf Hs. apply export_shape_consistent; auto using names_ok_fixed. Qed.
+
+
+(* ================================================================ refutations of the pinned upstream behaviour *)
 (* row 6: cat(x, excluded_conv(x)) feeding a searchable layer: 10 input features instead of 8 *)
 Definition w_const : net := [NIn 3; NLayer 0 5 Full false; NCat [0; 1]; NLayer 2 4 Full true; NLayer 3 2 Full true].
 Definition m_const := assoc [(3, [true; false; true; true]); (4, [true; true])].
